@@ -79,6 +79,12 @@ example : print .compact exampleValue = "@tag(7)@b(k:true){\"two words\",:%AQL/,
 example : parseFuel 200 (print .compact exampleValue) = .ok exampleValue.norm :=
   C09_parse_print_compact _ (by decide) _ (by decide)
 
+/-- **Stable**: what one print/parse cycle returns (`norm v`) is a fixed point of further cycles. -/
+theorem C09_fixpoint_compact (v : Value) (hw : v.wf = true) (fuel : Nat) (hf : 6 * v.size ≤ fuel) :
+    parseFuel fuel (print .compact v.norm) = .ok v.norm := fixpoint_compact v hw fuel hf
+
+example : exampleValue.norm ≠ exampleValue ∧ exampleValue.norm.norm = exampleValue.norm := by decide
+
 /-- The full statement (no restriction on the shape of the value) is false of the code as it is. -/
 def C09_parse_print_compact_unrestricted : Prop :=
   ∀ v : Value, (∀ fuel, 6 * v.size ≤ fuel → parseFuel fuel (print .compact v) = .ok v.norm)
@@ -136,9 +142,5 @@ def C09_float_roundtrip_open : Prop :=
     ∀ rest, Delim rest →
       lexPrim (ryuChars (.fin neg m e) ++ rest) = some (.ok (.float (.fin neg m e), rest)) ∧
       lexPrim (expChars (.fin neg m e) ++ rest) = some (.ok (.float (.fin neg m e), rest))
-
-/-- One print/parse cycle reaches a fixed point: `norm` is idempotent and stays inside the fragment. -/
-def C09_fixpoint_open : Prop :=
-  ∀ v : Value, v.wf = true → v.norm.wf = true ∧ v.norm.norm = v.norm
 
 end SwimVerif.Recon
